@@ -107,9 +107,9 @@ theorem step_recv {st st' : State} {a : Arm} (h : step st (.recv a) = some st') 
     (rtableOf st.rpc).contains a = true ∧
     ((∃ m rest, a = .recv chData ∧ st.buf = m :: rest ∧
         st' = { st with buf := rest, delivered := st.delivered ++ [m], rpc := .idle }) ∨
-     (a = .recv chSenderDone ∧ st.senderDone = true ∧ st.rpc = .next ∧ nextDrains = true ∧
+     (a = .recv chSenderDone ∧ st.senderDone = true ∧ st.rpc.isNext = true ∧ nextDrains = true ∧
         st' = { st with rpc := .drain }) ∨
-     (a = .recv chSenderDone ∧ st.senderDone = true ∧ ¬(st.rpc = .next ∧ nextDrains = true) ∧
+     (a = .recv chSenderDone ∧ st.senderDone = true ∧ (st.rpc.isNext && nextDrains) = false ∧
         st' = reportEnd st) ∨
      (∃ ch, a = .recv ch ∧ ch ≠ chData ∧ ch ≠ chSenderDone ∧ st' = { st with rpc := .idle }) ∨
      (a = .dflt ∧ st.rpc = .drain ∧ rDefaultReady st = true ∧ st' = reportEnd st)) := by
@@ -141,11 +141,12 @@ theorem step_recv {st st' : State} {a : Arm} (h : step st (.recv a) = some st') 
               exact hr
             split at h
             · rename_i hc
+              simp only [Bool.and_eq_true] at hc
               simp at h
               exact Or.inr (Or.inl ⟨rfl, hsd, hc.1, hc.2, h.symm⟩)
             · rename_i hc
               simp at h
-              exact Or.inr (Or.inr (Or.inl ⟨rfl, hsd, hc, h.symm⟩))
+              exact Or.inr (Or.inr (Or.inl ⟨rfl, hsd, by simpa using hc, h.symm⟩))
           · rename_i hch2
             have hne2 : ch ≠ chSenderDone := by simpa using hch2
             simp at h
@@ -157,6 +158,33 @@ theorem step_recv {st st' : State} {a : Arm} (h : step st (.recv a) = some st') 
         exact Or.inr (Or.inr (Or.inr (Or.inr ⟨rfl, hc.1, hc.2, h.symm⟩)))
       · simp at h
     · simp at h
+  · simp at h
+
+/-- Parking of a `Send`: the poll found nothing ready; only the `parked` flag of that call changes. -/
+theorem step_park {st st' : State} {i : Nat} (h : step st (.park i) = some st') :
+    ∃ sd m, st.senders[i]? = some sd ∧ sd.pc = .send m false ∧ sDefaultReady st sd = true ∧
+      st' = st.setSender i { sd with pc := .send m true } := by
+  simp only [step] at h
+  split at h
+  · simp at h
+  · rename_i sd hsd
+    split at h
+    · rename_i m hpc
+      split at h
+      · rename_i hr
+        simp at h
+        exact ⟨sd, m, hsd, hpc, hr, h.symm⟩
+      · simp at h
+    · simp at h
+
+/-- Parking of `Next`: only the `parked` flag of the receiver changes. -/
+theorem step_parkRecv {st st' : State} (h : step st .parkRecv = some st') :
+    st.rpc = .next false ∧ rDefaultReady st = true ∧ st' = { st with rpc := .next true } := by
+  simp only [step] at h
+  split at h
+  · rename_i hc
+    simp at h
+    exact ⟨hc.1, hc.2, h.symm⟩
   · simp at h
 
 end Juniper.Proofs.Pipe
